@@ -187,7 +187,9 @@ def audit(ctx, plugin):
     (per-theorem dict name -> {'ok':bool,'axioms':[...],'error':str})."""
     thms = plugin.THEOREMS
     hdr = plugin.AUDIT_IMPORT + "\n"
-    body = "".join("Check (%s : %s).\nPrint Assumptions %s.\n" % (n, s, n) for n, s in thms)
+    # `Definition pin_i : <pinned statement> := <name>.` checks the pin without printing anything that
+    # could be mistaken for an axiom entry (the output of `Check` starts with "name : ...")
+    body = "".join("Definition pin_%d : %s := %s.\nPrint Assumptions %s.\n" % (i, s, n, n) for i, (n, s) in enumerate(thms))
     path = os.path.join(ctx.work, "Audit_%s.v" % plugin.ID)
     open(path, "w").write(hdr + body)
     rc, out = run(["coqc", "-noglob", "-Q", THEORIES, "RlibV", path], cwd=ctx.work, timeout=1800)
@@ -203,7 +205,7 @@ def audit(ctx, plugin):
     def one(i):
         n, s = thms[i]
         p = os.path.join(ctx.work, "Audit_%s_%d.v" % (plugin.ID, i))
-        open(p, "w").write(hdr + "Check (%s : %s).\nPrint Assumptions %s.\n" % (n, s, n))
+        open(p, "w").write(hdr + "Definition pin_%d : %s := %s.\nPrint Assumptions %s.\n" % (i, s, n, n))
         rc1, out1 = run(["coqc", "-noglob", "-Q", THEORIES, "RlibV", p], cwd=ctx.work, timeout=1800)
         if rc1 == 0:
             ax1, _ = parse_assumptions(out1, [n])
